@@ -64,7 +64,11 @@ def name_of(v):
     return NAMES.get(id(v))
 
 
-CTL = {'n': 0, 'fail': -1, 'hook': None, 'serial': 0, 'live': False, 'failsym': None, 'failed_at': 0, 'hooksym': None, 'hookfn': None, 'hooked_at': 0}
+# the same fault raised as a subclass of the exception classes the library itself catches internally (a comparison
+# that raises ValueError / KeyError / TypeError / IndexError / AttributeError must reach the caller like any other)
+FAULTS = [CmpError] + [type('CmpError', (CmpError, b), {}) for b in (ValueError, KeyError, TypeError, IndexError, AttributeError)]
+
+CTL = {'failcls': CmpError, 'n': 0, 'fail': -1, 'hook': None, 'serial': 0, 'live': False, 'failsym': None, 'failed_at': 0, 'hooksym': None, 'hookfn': None, 'hooked_at': 0}
 
 
 def reset(fail=-1, hook=None):
@@ -134,7 +138,7 @@ def _tick():
         if hit:
             CTL['failsym'] = None
             CTL['failed_at'] = n
-            raise CmpError(n)
+            raise CTL['failcls'](n)
     h = CTL['hook']
     if h is not None and n == h[0]:
         CTL['hook'] = None
